@@ -19,6 +19,9 @@ const version uint32 = 0x1
 // maxLen is the biggest slice/array len one can create on a 32/64b platform.
 const maxLen = int64(int(^uint(0) >> 1))
 
+// maxElems is the biggest number of float64 elements a slice can hold.
+const maxElems = maxLen / 8
+
 var (
 	headerSize  = binary.Size(storage{})
 	sizeFloat64 = binary.Size(float64(0))
@@ -165,11 +168,10 @@ func (m *Dense) UnmarshalBinary(data []byte) error {
 	if rows < 0 || cols < 0 {
 		return errBadSize
 	}
-	size := rows * cols
-	if size == 0 {
+	if rows == 0 || cols == 0 {
 		return ErrZeroLength
 	}
-	if int(size) < 0 || size > maxLen {
+	if rows > maxElems/cols {
 		return errTooBig
 	}
 	if len(data) != headerSize+int(rows*cols)*sizeFloat64 {
@@ -221,11 +223,10 @@ func (m *Dense) UnmarshalBinaryFrom(r io.Reader) (int, error) {
 	if rows < 0 || cols < 0 {
 		return n, errBadSize
 	}
-	size := rows * cols
-	if size == 0 {
+	if rows == 0 || cols == 0 {
 		return n, ErrZeroLength
 	}
-	if int(size) < 0 || size > maxLen {
+	if rows > maxElems/cols {
 		return n, errTooBig
 	}
 
@@ -358,7 +359,7 @@ func (v *VecDense) UnmarshalBinary(data []byte) error {
 	if n < 0 {
 		return errBadSize
 	}
-	if int64(maxLen) < n {
+	if maxElems < n {
 		return errTooBig
 	}
 	if len(data) != headerSize+int(n)*sizeFloat64 {
@@ -407,7 +408,7 @@ func (v *VecDense) UnmarshalBinaryFrom(r io.Reader) (int, error) {
 	if l < 0 {
 		return n, errBadSize
 	}
-	if int64(maxLen) < l {
+	if maxElems < l {
 		return n, errTooBig
 	}
 
